@@ -10,7 +10,19 @@ import (
 )
 
 // concreteRun executes a harness in the engine with all draws taken from a concrete vector.
-func concreteRun(ex *Exec, loaded *Loaded, pkg, fn string, params map[string]int, draws []DrawVal) ([]*Violation, string) {
+func concreteRun(ex *Exec, loaded *Loaded, pkg, fn string, params map[string]int, draws []DrawVal) (viols []*Violation, end string) {
+	defer func() {
+		if r := recover(); r != nil {
+			// the concrete replay hit something the executor only supports symbolically
+			ex.concrete = nil
+			ex.work = nil
+			viols, end = nil, fmt.Sprintf("unsupported: %v", r)
+		}
+	}()
+	return concreteRun1(ex, loaded, pkg, fn, params, draws)
+}
+
+func concreteRun1(ex *Exec, loaded *Loaded, pkg, fn string, params map[string]int, draws []DrawVal) ([]*Violation, string) {
 	st0 := ex.RunInit([]*ssa.Package{loaded.pkgs[pkg]})
 	ex.resetStats()
 	ex.viols = nil
